@@ -321,6 +321,9 @@ class Check(PropertyCheck):
                 gaps = [(angs[(q + 1) % k] - angs[q]) % (2 * math.pi) for q in range(k)]
                 if max(gaps) >= math.pi - 0.05:
                     continue
+                if rng.random() < 0.4:
+                    # built with the origin= keyword (vertices relative to an origin pixel)
+                    d['origin'] = [float(rng.randint(-8, 8)) / 2, float(rng.randint(-8, 8)) / 2]
             cases.append({'kind': 'converge/' + kind, 'region': d, 'pick': rng.randrange(1 << 30), 'n': rng.choice([1, 2, 3, 5, 8, 12, 20])})
         return cases
 
@@ -341,7 +344,10 @@ class Check(PropertyCheck):
 
     def real(self, case):
         reg = G.build(case['region'])
+        # the same object has been asked for a coarser mask before (a convergence loop n = 1, 2, 4, … does that)
+        reg.to_mask(mode='center')
         if case['kind'].startswith('converge'):
+            reg.to_mask(mode='subpixels', subpixels=max(1, case['n'] // 2))
             m = reg.to_mask(mode='subpixels', subpixels=case['n'])
         else:
             m = reg.to_mask(mode='exact')
